@@ -249,6 +249,9 @@ pub struct HdrCase {
     /// < 2^31 frame number when `variable` is false, < 2^36 start sample otherwise
     pub number: u64,
     pub variable: bool,
+    /// a later `set_frame_offset` call on the same header: (variable blocking?, number)
+    #[serde(default)]
+    pub then: Option<(bool, u64)>,
 }
 
 pub fn check_header(c: &HdrCase) -> Outcome {
@@ -271,6 +274,15 @@ pub fn check_header(c: &HdrCase) -> Outcome {
             return out;
         }
     };
+    let mut h = h;
+    let mut c = c.clone();
+    if let Some((variable, number)) = c.then {
+        let number = if variable { number & ((1u64 << 36) - 1) } else { number & ((1u64 << 31) - 1) };
+        h.set_frame_offset(if variable { FrameOffset::StartSample(number) } else { FrameOffset::Frame(number as u32) });
+        out.class(if variable != c.variable { "history:offset-reset-in-the-other-mode" } else { "history:offset-reset" });
+        c.number = number;
+        c.variable = variable;
+    }
     let bits = 64 - c.number.leading_zeros();
     out.class(format!("number-bits:{}", match bits {
         0..=7 => "<=7",
@@ -405,7 +417,7 @@ pub fn check_noncanonical(c: &NcCase) -> Outcome {
 pub fn run(ctx: &Ctx) {
     ctx.rule(
         "every component of generated streams (general inputs, and loud 20/24-bit inputs with Rice parameters limited to 0..2 so that quotient sums reach 2^32) (stream, STREAMINFO, frames before/after precompute_bitstream, headers, subframes, residuals) and of the parsed stream: count_bits() == bits written to MemSink<u8> == MemSink<u64> == a counting sink, frames are whole bytes, parents equal the sum of their children; \
-         directly constructed residuals (partition order 0..=8, parameters 0..=14, quotients up to 2^32-1 with the quotient sum forced to 2^32-1 / 2^32 / 2^32+1 and max*n straddling u32::MAX) compared with an independent u128 count; frame headers over the whole 31-bit frame-number and 36-bit start-sample ranges (boundary-dense); hand-written frame headers with every (also non-canonical) coding of block size and sample rate, parsed and re-counted; every small component is first written into a user sink that fails half-way, then counted (scratch buffers must not leak); \
+         directly constructed residuals (partition order 0..=14, parameters 0..=14, quotients up to 2^32-1 with the quotient sum forced to 2^32-1 / 2^32 / 2^32+1 and max*n straddling u32::MAX) compared with an independent u128 count; frame headers over the whole 31-bit frame-number and 36-bit start-sample ranges (boundary-dense); hand-written frame headers with every (also non-canonical) coding of block size and sample rate, parsed and re-counted; every small component is first written into a user sink that fails half-way, then counted (scratch buffers must not leak); \
          non-trivial = component containing a residual or a multi-byte coded number",
     );
     let per = ctx.tier.scale(2000, 6);
@@ -428,8 +440,12 @@ pub fn run(ctx: &Ctx) {
     }, check_stream);
     ctx.shrink_iters.store(saved_shrink, std::sync::atomic::Ordering::Relaxed);
     ctx.search("residual", 16, per * 4, &|| {
-        (0usize..=8, prop_oneof![1usize..=8, 1usize..=70, Just(64usize)], 0usize..=4, proptest::collection::vec(0u8..=14, 1..=8), any::<u64>(), 0u8..=5)
-            .prop_map(|(partition_order, part_len, warmup, params, seed, mode)| ResCase { partition_order, part_len, warmup, params, seed, mode })
+        (prop_oneof![4 => 0usize..=8, 1 => 9usize..=14], prop_oneof![1usize..=8, 1usize..=70, Just(64usize)], 0usize..=4, proptest::collection::vec(0u8..=14, 1..=8), any::<u64>(), 0u8..=5)
+            .prop_map(|(partition_order, part_len, warmup, params, seed, mode)| {
+                // keep the block size inside 1..=32767
+                let part_len = part_len.min((32767usize >> partition_order).max(1));
+                ResCase { partition_order, part_len, warmup, params, seed, mode }
+            })
     }, check_residual);
     ctx.search("parsed-header-codings", 16, per * 4, &|| {
         let number = prop_oneof![2 => (0u32..=36, -3i64..=3).prop_map(|(b, d)| ((1i128 << b) + d as i128).clamp(0, (1i128 << 36) - 1) as u64), 1 => any::<u64>().prop_map(|x| x & ((1u64 << 36) - 1))];
@@ -452,7 +468,7 @@ pub fn run(ctx: &Ctx) {
             1 => any::<u64>().prop_map(|x| x & ((1u64 << 31) - 1)),
         ];
         (crate::gen::block_size_strategy(32767), crate::gen::rate_strategy(), proptest::sample::select(vec![8usize, 12, 16, 20, 24]), 1u8..=11, number, any::<bool>())
-            .prop_map(|(block, rate, bps, channels, number, variable)| HdrCase { block, rate, bps, channels, number: if variable { number } else { number & ((1u64 << 31) - 1) }, variable })
+            .prop_map(|(block, rate, bps, channels, number, variable)| HdrCase { block, rate, bps, channels, number: if variable { number } else { number & ((1u64 << 31) - 1) }, variable, then: if number % 3 == 0 { Some((number % 2 == 0, number.rotate_left(17) >> (number % 37))) } else { None } })
     }, check_header);
 }
 
